@@ -16,8 +16,16 @@ def gen_spec(rng, nhosts=None, ndcs=None, kind=None):
     spec = {'kind': kind, 'dcs': dcs,
             'pred': {'hosts': sorted(rng.sample(range(nhosts), rng.randint(0, nhosts))), 'dc': rng.choice([0, 0, 1, 2]),
                      'style': rng.randrange(4)}}
+    if rng.random() < 0.25 and nhosts > 1:
+        # several hosts behind one address (same IP / different ports, SNI-style proxies): address index per host
+        spec['addrs'] = [rng.randrange(max(1, nhosts - 1)) for _ in range(nhosts)]
     if kind == 'wl':
+        # allowed ADDRESSES, each written canonically or in a spelling that only getaddrinfo maps to the host's address
         spec['allowed'] = sorted(rng.sample(range(nhosts), rng.randint(0, nhosts)))
+        spec['wl_names'] = [rng.choice([0, 1]) for _ in spec['allowed']]
+    # the token-aware wrapper asked after every event: replica list (any hosts, any order), routed or not, scripted is_up
+    spec['ta'] = {'replicas': rng.sample(range(nhosts), rng.randint(0, nhosts)), 'routed': rng.random() < 0.9,
+                  'up': [rng.choice([True, True, None, False]) for _ in range(nhosts)]}
     if kind == 'dca':
         spec['local'] = rng.choice([0, 0, 1, 1, 2, 3])
         spec['used'] = rng.choice([0, 1, 1, 2, 3, 7, -1])
